@@ -82,6 +82,21 @@ fn exact_lie<T>(b: &[u8], r: &Result<T, RtcpParseError>, pt: Option<u8>, min: us
     None
 }
 
+/// What the exactness clauses demand of a packet-shaped parser on `b`, if they apply.
+fn exact_demand(b: &[u8], pt: Option<u8>, min: usize) -> Option<RtcpParseError> {
+    if b.len() < min {
+        return Some(RtcpParseError::Truncated { expected: min, actual: b.len() });
+    }
+    if b.len() < 4 {
+        return None;
+    }
+    let h = 4 * (be16(b, 2) + 1);
+    if b[0] >> 6 == 2 && pt.map(|p| b[1] == p).unwrap_or(true) && b.len() != h {
+        return Some(if b.len() < h { RtcpParseError::Truncated { expected: h, actual: b.len() } } else { RtcpParseError::TooLarge { expected: h, actual: b.len() } });
+    }
+    None
+}
+
 pub struct VerdictA {
     pub codes: Vec<u8>,
     pub violation: Option<(String, String)>,
@@ -115,9 +130,13 @@ pub fn judge_a(b: &[u8]) -> VerdictA {
                         v.violation.get_or_insert((format!("{k}:{}", $name), format!("{}::parse on {} bytes: {d}", $name, b.len())));
                     }
                 }
-                Err(_) => {
+                Err(p) => {
                     v.codes.push(255);
-                    v.panics += 1
+                    v.panics += 1;
+                    // where the statement says what must be reported, an unwind reports nothing
+                    if let Some(want) = exact_demand(b, $pt, $min) {
+                        v.violation.get_or_insert((format!("Inexact:{}", $name), format!("{}::parse on {} bytes: must report {want:?} but unwound ({} at {})", $name, b.len(), p.msg, p.short_loc())));
+                    }
                 }
             }
         }};
@@ -169,9 +188,15 @@ pub fn judge_a(b: &[u8]) -> VerdictA {
                         v.violation.get_or_insert((format!("{k}:{}", $name), format!("{} on {} bytes: {d}", $name, b.len())));
                     }
                 }
-                Err(_) => {
+                Err(p) => {
                     v.codes.push(255);
-                    v.panics += 1
+                    v.panics += 1;
+                    let min: Option<usize> = $min;
+                    if let Some(m) = min {
+                        if b.len() < m {
+                            v.violation.get_or_insert((format!("Inexact:{}", $name), format!("{} on {} bytes: must report Truncated {{ expected: {m}, actual: {} }} but unwound ({} at {})", $name, b.len(), b.len(), p.msg, p.short_loc())));
+                        }
+                    }
                 }
             }
         }};
